@@ -439,6 +439,13 @@ func (p *c17) Run(tier string, seed int64, idx int) core.CaseResult {
 				c2[k] = core.Pick(r, ccNames)
 				try(c2, "corrupted_paths")
 			}
+			// the token with something and a colon in front: a name selects a child only as it is
+			for _, q := range []string{"x:", ms.Mods[0].Arg + ":", ":", "a:b:"} {
+				c3 := append([]string{}, w...)
+				c3[k] = q + w[k]
+				try(c3, "corrupted_paths")
+				res.Ev("paths_with_a_qualified_token", 1)
+			}
 		}
 		// a token repeated: the offending element is then string-equal to the element before it
 		for k := range w {
